@@ -229,6 +229,9 @@ func (d *DHCP) Write(b []byte) (n int, err error) {
 	if err = binary.Read(buf, binary.BigEndian, &clientHWAddr); err != nil {
 		return
 	}
+	if int(d.HardwareLen) > len(clientHWAddr) {
+		return n, errors.New("Bad DHCP hardware address length")
+	}
 	d.ClientHWAddr = net.HardwareAddr(clientHWAddr[:d.HardwareLen])
 	n += 16
 
@@ -492,6 +495,9 @@ func DHCPParseOptions(in []byte) (opts []DHCPOption, err error) {
 			if len(in)-pos >= 1 {
 				_len := in[pos]
 				pos++
+				if len(in)-pos < int(_len) {
+					return opts, errors.New("ErrTruncated")
+				}
 				opts = append(opts, DHCPNewOption(tag, in[pos:pos+int(_len)]))
 				pos += int(_len)
 			}
